@@ -92,8 +92,20 @@ def child_main(cfg):
             if name == "os.rename" and len(ps) == 2 and (inside(ps[0]) or inside(ps[1])):
                 tick({"ev": "rename", "p": rel(ps[0]) if inside(ps[0]) else None,
                       "q": rel(ps[1]) if inside(ps[1]) else None})
-            elif name in ("os.link", "os.symlink") and len(ps) == 2 and inside(ps[1]):
-                tick({"ev": name[3:], "p": rel(ps[1])})
+            elif name == "os.link" and len(ps) == 2 and inside(ps[1]):
+                ev = {"ev": "link", "p": rel(ps[1])}
+                st["busy"] = True
+                try:
+                    with open(ps[0], "rb") as f:
+                        ev["md5"] = hashlib.md5(f.read()).hexdigest()  # noqa: S324
+                    ev["mode"] = stat.S_IMODE(os.stat(ps[0]).st_mode)
+                except OSError:
+                    pass
+                finally:
+                    st["busy"] = False
+                tick(ev)
+            elif name == "os.symlink" and len(ps) == 2 and inside(ps[1]):
+                tick({"ev": "symlink", "p": rel(ps[1])})
             elif ps and inside(ps[0]) and name not in ("os.rename", "os.link", "os.symlink"):
                 e = {"ev": name[3:], "p": rel(ps[0])}
                 if name == "os.chmod":
@@ -210,6 +222,8 @@ def child_main(cfg):
     state = State(root_dir=root, tmp_dir=os.path.join(root, "st"))
     odb = LocalHashFileDB(localfs, store, state=state, verify=bool(cfg.get("store_verify", False)))
     vkw = {"verify": True} if cfg.get("verify") else {}  # per-call verification
+    if cfg.get("hardlink"):
+        vkw["hardlink"] = True  # transfer(..., hardlink=True): workspace files are linked into the store
     scn = cfg["scenario"]
     ws = os.path.join(root, "ws")
     result = None
@@ -411,7 +425,14 @@ def audit(root, store_name="cache"):
                 rows[o] = hi.value
     finally:
         st.close()
-    return {"objs": objs, "tmps": sorted(tmps), "rows": rows, "other": other}
+    ws = {}
+    wroot = os.path.join(root, "ws")
+    for r, _ds, fs in os.walk(wroot):
+        for n in fs:
+            p = os.path.join(r, n)
+            with open(p, "rb") as f:
+                ws[os.path.relpath(p, wroot).replace(os.sep, "/")] = hashlib.md5(f.read()).hexdigest()  # noqa: S324
+    return {"objs": objs, "tmps": sorted(tmps), "rows": rows, "other": other, "ws": ws}
 
 
 def snap_view(snap):
@@ -663,7 +684,7 @@ def setup(root, sc):
 
 def child_cfg(root, sc, **kw):
     cfg = {"root": root, "scenario": sc["scenario"], "store": "cache", "verify": bool(sc.get("verify")),
-           "store_verify": bool(sc.get("store_verify"))}
+           "store_verify": bool(sc.get("store_verify")), "hardlink": bool(sc.get("hardlink"))}
     if sc["scenario"] == "add":
         cfg["items"] = [[rp, md5(b)] for rp, b in sc["tree"].items()]
     if sc["scenario"] == "store_transfer":
@@ -751,14 +772,14 @@ def jsonable(sc):
     return {"scenario": sc["scenario"], "tree": {k: v.decode("latin1") for k, v in sc["tree"].items()},
             "pre": [[b.decode("latin1") if isinstance(b, bytes) else b, m] for b, m in sc.get("pre", [])],
             "verify": bool(sc.get("verify")), "store_verify": bool(sc.get("store_verify")),
-            "roots": sc.get("roots"), "bad_src": sc.get("bad_src")}
+            "roots": sc.get("roots"), "bad_src": sc.get("bad_src"), "hardlink": bool(sc.get("hardlink"))}
 
 
 def unjson(case):
     return {"scenario": case["scenario"], "tree": {k: v.encode("latin1") for k, v in case["tree"].items()},
             "pre": [(b.encode("latin1"), m) for b, m in case.get("pre", [])],
             "verify": bool(case.get("verify")), "store_verify": bool(case.get("store_verify")),
-            "roots": case.get("roots"), "bad_src": case.get("bad_src")}
+            "roots": case.get("roots"), "bad_src": case.get("bad_src"), "hardlink": bool(case.get("hardlink"))}
 
 
 def crash_and_rerun(wd, sc, n, tag):
